@@ -8,6 +8,10 @@ func extra() {
 	sv := consts(parse("pkg/strvals/parser.go"))
 	emitNat("maxIndex", need(sv, "MaxIndex"))
 	emitNat("maxNestedNameLevel", need(sv, "MaxNestedNameLevel"))
+	// archive size limits
+	ar := consts(parse("pkg/chart/v2/loader/archive.go"))
+	emitNat("maxDecompressedChartSize", need(ar, "MaxDecompressedChartSize"))
+	emitNat("maxDecompressedFileSize", need(ar, "MaxDecompressedFileSize"))
 	// order in which Options.MergeValues applies the value-flag families
 	emitList("valueFlagOrder", rangeOrder(funcDecl(parse("pkg/cli/values/options.go"), "Options", "MergeValues")))
 }
